@@ -88,6 +88,13 @@ def handleGossip (n : Node) (now sender : Nat) (view : List Mem) : Node :=
 def fdTick (n : Node) (now : Nat) : Node :=
   { n with mem := n.mem.filter fun m => m.addr = n.self.addr || !stale n.T now m }
 
+/-- `runFailureDetection` with a confirmation period `D` (`SuspectConfirmDuration`): a member not
+seen for more than `T + D` is removed; one that is Up and not seen for more than `T` becomes
+Suspect (only when `D > 0`). -/
+def fdTickD (n : Node) (D now : Nat) : Node :=
+  { n with mem := (n.mem.filter fun m => m.addr = n.self.addr || !decide (m.seen + n.T + D < now)).map fun m =>
+      if m.addr ≠ n.self.addr ∧ m.st = .up ∧ m.seen + n.T < now ∧ 0 < D then { m with st := .suspect } else m }
+
 def dedup : List Nat → List Nat
   | [] => []
   | x :: t => x :: (dedup t).filter (· ≠ x)
